@@ -742,7 +742,10 @@ def decorations(mod, x, rng, level, with_positions=True):
     add(('ws:both', ' \t' + x + '\n'))
     add(('ws:both', '\n' + x + ' \n'))
     # prefixes
-    for p in prefix_candidates(mod):
+    prefixes = list(prefix_candidates(mod))
+    if len(x) > 2 and x[:2].isascii() and x[:2].isalpha() and x[:2].upper() not in [p.upper() for p in prefixes]:
+        prefixes.append(x[:2])      # a leading two-letter code (vatin, iban, eu.*) is treated as a prefix too
+    for p in prefixes:
         for lab, y in (('prefix:add', p + x), ('prefix:add-lower', p.lower() + x), ('prefix:add-space', p + ' ' + x),
                        ('prefix:add-dash', p + '-' + x), ('prefix:add-newline', p + '\n' + x)):
             add((lab, y))
@@ -851,6 +854,36 @@ def budget_scale(mod):
     return _scale[name]
 
 
+FLOOR = {'quick': 0.1, 'thorough': 0.3, None: 0.1}
+
+
+def target_fraction(scale, tier):
+    """fraction of the normal budget that an expensive module gets: its budget_scale in the quick tier, four
+    times that (at most 1) in the thorough tier"""
+    return scale if tier != 'thorough' else min(1.0, 4 * scale)
+
+
+class Thinner:
+    """deterministic thinning of the bulk generators for the very expensive modules (budget_scale < 0.1, in
+    practice stdnum.mac whose every accepted input costs a 3 ms linear scan of the OUI table): only every k-th
+    generated input of a generator class is evaluated (k = ceil(floor / target fraction)).  Corpus numbers, blanks,
+    non-strings, long strings and date cases are never thinned."""
+    KEEP = ('corpus-valid', 'corpus-invalid', 'orig', 'compact', 'blank', 'non-string', 'long', 'date', 'valid')
+
+    def __init__(self, scale, tier='quick'):
+        t = target_fraction(scale, tier)
+        eff = max(t, FLOOR[tier])
+        self.k = int(-(-eff // t)) if eff > t else 1
+        self.n = {}
+
+    def skip(self, gen):
+        if self.k == 1 or gen in self.KEEP:
+            return False
+        n = self.n.get(gen, 0)
+        self.n[gen] = n + 1
+        return n % self.k != 0
+
+
 def scaled(n, scale):
     return n if scale >= 1 or n <= 0 else max(1, int(n * scale))
 
@@ -858,7 +891,9 @@ def scaled(n, scale):
 def scaled_params(params, scale, tier=None):
     """integer budgets scaled; the exhaustive decoration level ('full') is dropped for expensive modules, and
     in the quick tier the every-position level ('dense') too for the very expensive ones (mac: 3 ms per lookup)"""
-    out = dict((k, scaled(v, scale) if isinstance(v, int) and not isinstance(v, bool) else v)
+    scale = target_fraction(scale, tier)
+    eff = max(scale, FLOOR[tier])       # below the floor the Thinner takes over
+    out = dict((k, scaled(v, eff) if isinstance(v, int) and not isinstance(v, bool) else v)
                for k, v in params.items())
     if scale < 0.5 and 'full' in out:
         out['full'] = 0
